@@ -111,6 +111,23 @@ def defer_code_machines():
                      ("process", 5, 4, val, []), ("process", 6, 5, val, [])])
     return [("defer_codes", md, opss)]
 
+def defer_action_machines():
+    """row-level deferral (the Defer functor action) inside a submachine and at the root: the deferring rows leave from
+    Busy; Ready handles the events; one occurrence per event type plus two of one type"""
+    sub = machine([state(), state()], [0],
+                  [row(10, 0, 6, 1, act="call"), row(11, 0, 4, "none", act="defer"), row(12, 0, 5, "none", act="defer"),
+                   row(13, 1, 4, "none", act="call"), row(14, 1, 5, "none", act="call"), row(15, 1, 6, 0, act="call")])
+    root = machine([state(sub=sub), state()], [0], [row(1, 0, 7, 1, act="call"), row(2, 1, 7, 0, act="call")])
+    md = mdef(root, 4)
+    opss = [[("start", [], []), ("process", 4, 1, [], []), ("process", 5, 2, [], []), ("process", 6, 3, [], []),
+             ("process", 4, 4, [], []), ("process", 6, 5, [], []), ("process", 5, 6, [], []), ("process", 6, 7, [], [])],
+            [("start", [], []), ("process", 4, 1, [], []), ("process", 7, 2, [], []), ("process", 7, 3, [], []),
+             ("process", 6, 4, [], [])]]
+    flat = machine([state(), state()], [0],
+                   [row(10, 0, 6, 1, act="call"), row(11, 0, 4, "none", act="defer"), row(12, 0, 5, "none", act="defer"),
+                    row(13, 1, 4, "none", act="call"), row(14, 1, 5, "none", act="call"), row(15, 1, 6, 0, act="call")])
+    return [("defer_action_sub", md, opss), ("defer_action_root", mdef(flat, 4), [opss[0]])]
+
 def block_machines():
     """a region enters a terminate / interrupt state on an event to which later regions react as well"""
     out = []
@@ -290,6 +307,26 @@ def copy_history_machines():
             out.append(("%shist_%s" % ({"copy": "copy", "assign": "assign", "move": "move", "saveload": "save"}[mode], hname), md, opss))
     return out
 
+def save_pseudo_machines():
+    """saved while a state with the explicit_entry tag (entered directly, twice) is active, and - a second machine - after
+    leaving through an exit pseudo state: their opted-in data must come back like everybody else's"""
+    def P(k, e, pay):
+        return ("on", k, ("process", e, pay, [], []))
+    out = []
+    for name, with_exit in (("save_explicit_entry", False), ("save_exit_point", True)):
+        b = state(zone=0); b["explicit"] = True
+        states = [state(zone=0), b] + ([state(kind=["exitpt", 8], zone=0)] if with_exit else [])
+        rows = [row(10, 0, 5, 1, act="call"), row(11, 1, 5, 0, act="call")] + ([row(12, 1, 7, 2, act="call")] if with_exit else [])
+        sub = machine(states, [0], rows)
+        root = machine([state(), state(sub=sub)], [0],
+                       [row(1, 0, 4, ["direct", 1, [1]], act="call"), row(2, 1, 6, 0, act="call")] +
+                       ([row(3, 1, 8, 0, act="call", exitpt=2)] if with_exit else []))
+        md = mdef(root, 5)
+        ops1 = [("start", [], []), P(0, 4, 1), P(0, 6, 2), P(0, 4, 3), ("saveload", 1, 0), P(0, 5, 4), P(1, 5, 5), P(1, 5, 6), P(0, 6, 7), P(1, 6, 8)]
+        ops2 = [("start", [], []), P(0, 4, 1), P(0, 7, 2), ("saveload", 1, 0), P(0, 4, 3), P(1, 4, 4), P(1, 5, 5)]
+        out.append((name, md, [ops1, ops2] if with_exit else [ops1]))
+    return out
+
 def rowkind_machines():
     """every kind of row (guard+action, action only, guard only, neither) with every kind of target (simple state,
     submachine, explicit entry, fork, entry point) - the engines specialise the row execution per kind"""
@@ -327,7 +364,7 @@ def rowkind_machines():
 def main():
     os.makedirs(os.path.join(VERIF, "corpus"), exist_ok=True)
     n = 0
-    for name, md, opss in fwd_machines() + ortho_machines() + defer_code_machines() + block_machines() + pseudo_machines() + fork_machines() + throw_machines() + throw_nested_machines() + copy_history_machines() + rowkind_machines():
+    for name, md, opss in fwd_machines() + ortho_machines() + defer_code_machines() + defer_action_machines() + block_machines() + pseudo_machines() + fork_machines() + throw_machines() + throw_nested_machines() + copy_history_machines() + save_pseudo_machines() + rowkind_machines():
         save(name, md, opss)
         n += 1
     print("wrote %d corpus machines" % n)
